@@ -710,26 +710,67 @@ func c01r12(c *Ctx) {
 			}
 			seen[wc.subject] = true
 			subj := wc.subject
+			// the state may be carried by a helper's own variable and handed over at its return (`cs, err = cs', nil`):
+			// the variables whose value is copied whole into the subject count as the subject
+			subjs := map[types.Object]bool{subj: true}
+			for changed := true; changed; {
+				changed = false
+				for o := range subjs {
+					for _, d := range wholeDefs(f, o) {
+						if d.RHS == nil {
+							continue
+						}
+						if src := f.ObjOf(ast.Unparen(d.RHS)); src != nil && !subjs[src] {
+							if _, isVar := src.(*types.Var); isVar && types.Identical(src.Type(), subj.Type()) {
+								subjs[src] = true
+								changed = true
+							}
+						}
+					}
+				}
+			}
 			writes := func(nd *cfgx.Node) bool {
 				if nd.AST == nil {
 					return false
 				}
 				for _, w := range f.WritesIn(nd.AST, false) {
-					if f.ObjOf(w.LHS) == subj {
+					if subjs[f.ObjOf(w.LHS)] {
 						return true
 					}
 				}
 				return false
 			}
-			for _, head := range g.Nodes {
-				rs, ok := head.AST.(*ast.RangeStmt)
-				if !ok {
-					continue
+			var loops []ast.Stmt
+			ir.Walk(f.Body, false, func(x ast.Node) {
+				switch l := x.(type) {
+				case *ast.RangeStmt:
+					loops = append(loops, l)
+				case *ast.ForStmt:
+					loops = append(loops, l)
+				}
+			})
+			for _, loop := range loops {
+				var lbody *ast.BlockStmt
+				switch l := loop.(type) {
+				case *ast.RangeStmt:
+					lbody = l.Body
+				case *ast.ForStmt:
+					lbody = l.Body
 				}
 				inBody := false
+				var entries []*cfgx.Visit
 				for _, nd := range g.Nodes {
-					if nd.AST != nil && nd != head && containsNode(rs.Body, nd.AST) && writes(nd) {
+					if nd.AST == nil || !containsNode(lbody, nd.AST) {
+						continue
+					}
+					if writes(nd) {
 						inBody = true
+					}
+					for _, p := range nd.Preds {
+						// entered from the loop's own head (range / condition), not from the body or from outside the loop
+						if p.From != nil && p.From.AST != nil && !containsNode(lbody, p.From.AST) && (containsNode(loop, p.From.AST) || p.From.AST == ast.Node(loop)) {
+							entries = append(entries, cfgx.StartAfter(p, 0))
+						}
 					}
 				}
 				if !inBody {
@@ -737,19 +778,37 @@ func c01r12(c *Ctx) {
 				}
 				n++
 				c.VisitGraph(f)
-				ob := c.Ob(f, "gate-state-advanced-every-iteration:"+subj.Name(), rs.Pos())
-				var body *cfgx.Edge
-				for _, e := range head.Succs {
-					if e.Kind == cfgx.Br0 {
-						body = e
-					}
-				}
-				if body == nil {
+				ob := c.Ob(f, "gate-state-advanced-every-iteration:"+subj.Name(), loop.Pos())
+				if len(entries) == 0 {
 					ob.Unknown("loop body edge not found")
 					continue
 				}
-				if v, skip := g.Reach([]*cfgx.Visit{cfgx.StartAfter(body, 0)}, writes)[head]; skip {
-					ob.Bad(c.Witness(v), "an iteration of the loop at %s can finish without assigning %s, the state the reorg gate compares with the tip: a batch of blocks the store already knows (resubmitted after a stop or a rolled-back reorg) is judged by a stale state and the node does not move onto it", c.P.Pos(rs.Pos()), subj.Name())
+				// the stale state matters where it is used: by the next iteration, or by the gate after the loop (an
+				// iteration that ends in an error leaves through the error exit; per-path flags tell)
+				entryEdge := map[*cfgx.Edge]bool{}
+				for _, v := range entries {
+					entryEdge[v.Via] = true
+				}
+				gateNode := map[*cfgx.Node]bool{}
+				hv, _ := r.heavierEdges(f)
+				for _, e := range hv {
+					gateNode[e.From] = true
+				}
+				var skip *cfgx.Visit
+				for _, v := range f.ExploreFeasible(entries, cfgx.Walker{
+					AtNode: func(nd *cfgx.Node, st cfgx.State) (cfgx.State, bool) {
+						return st, !writes(nd) && !gateNode[nd]
+					},
+				}) {
+					if v.Prev == nil || skip != nil || writes(v.Node) {
+						continue
+					}
+					if gateNode[v.Node] || entryEdge[v.Via] {
+						skip = v
+					}
+				}
+				if skip != nil {
+					ob.Bad(c.Witness(skip), "an iteration of the loop at %s can finish without assigning %s, the state the reorg gate compares with the tip: a batch of blocks the store already knows (resubmitted after a stop or a rolled-back reorg) is judged by a stale state and the node does not move onto it", c.P.Pos(loop.Pos()), subj.Name())
 				} else {
 					ob.OK("every completed iteration assigns the gate's state")
 				}
